@@ -4,6 +4,7 @@ import (
 	"fmt"
 	"go/ast"
 	"go/types"
+	"os"
 	"sort"
 	"strings"
 )
@@ -304,7 +305,7 @@ func (w *World) verifyFunc(fi *FuncInfo, fc *FuncContract) (ex *Exec, err error)
 		gs, gt := w.resolveSpecType(shortPkg(fi.Pkg.PkgPath), g.Type)
 		st.ghost[g.Name] = tv(ex.fresh("gh_"+g.Name, gs), gt)
 	}
-	if ex.allocates {
+	if ex.allocates && os.Getenv("GOVC_NONILALLOC") == "" {
 		ex.assume(st, tNot(ex.isAlloc(st, intLit(0)))) // nil is never an allocated object
 	}
 	ex.entry = st.clone()
@@ -1179,7 +1180,9 @@ func (ex *Exec) applyContract(st *State, cfi *FuncInfo, cfc *FuncContract, recv 
 		rr := cnst(fmt.Sprintf("r$%d", bvCounter), SRef)
 		st.ghost["H:$alloc"] = tv(na, nil)
 		ex.assume(st, &Term{Op: "forall", BVars: []*Term{rr}, S: SBool, Args: []*Term{tImp(tSelect(old, rr), tSelect(na, rr))}})
-		ex.assume(st, tNot(tSelect(na, intLit(0)))) // nil is never an allocated object
+		if os.Getenv("GOVC_NONILALLOC") == "" {
+			ex.assume(st, tNot(tSelect(na, intLit(0)))) // nil is never an allocated object
+		}
 		post["$oldalloc"] = tv(old, nil)
 	}
 	var gbv []*Term
